@@ -30,6 +30,7 @@ EXPLANATION = (
     "Gaussian-mixture rule hands the integral to the Gaussian component alone only when no integer variable is reduced; where a rule returns "
     "Tensor(data, I).reduce(op, S), S lies within I and I is exactly the integer inputs of the operands. R13.10: factors aligned to inputs "
     "merged from several operands are expanded (expand=True) before a Gaussian is declared over the merged inputs."
+    " R13.11: a stripped negation is compensated. R13.12: a rule that takes the .terms of a GaussianMixture operand apart consults its reduced_vars / red_op. R13.13: _marginalize_after_split keeps the normaliser it starts with. R13.14: the mass multiplied in by an Integrate rule is exp of the measure's log-normaliser. R13.15: a factor from which a block was projected out is not handed on with its full column count as the declared rank (known finding F52)."
 )
 ASSUMPTIONS = ["Cholesky / triangular-solve formulas, log_normalizer, the closed forms of the Integrate rules and moment matching are not decided",
                "the data computed by the Integrate rules from means and normalisers has exactly the batch axes of the operands (R13.9)"]
